@@ -338,8 +338,8 @@ def run(ctx):
     thorough = ctx.tier == "thorough"
     warmup()
     ctx.proofs()
-    N = 2600 if thorough else 520
-    NR = 500 if thorough else 100
+    N = 9000 if thorough else 520
+    NR = 1500 if thorough else 100
     cases = [normalise(c) for c in FIXED]
     cases += [gen_case(ctx.rng, thorough) for _ in range(N)]
     cases += [gen_real_case(ctx.rng) for _ in range(NR)]
